@@ -4,11 +4,15 @@ package c01
 import (
 	"bytes"
 	"fmt"
+	"math/big"
 	"sort"
+	"strings"
 	"testing"
 
 	sdk "github.com/cosmos/cosmos-sdk/types"
 
+	tsstypes "github.com/teleport-network/teleport/x/xibc/clients/tss-client/types"
+	clienttypes "github.com/teleport-network/teleport/x/xibc/core/client/types"
 	packettypes "github.com/teleport-network/teleport/x/xibc/core/packet/types"
 
 	"verif/harness/core"
@@ -23,7 +27,14 @@ type hist struct {
 	s    *pkt.Sim
 	orig map[*pkt.Pkt]*packettypes.MsgRecvPacket // the accepted receive message per packet
 	nRep int
+	// TSS-secured counterparty: accepted receives per chain and sequence
+	tss     *core.Account
+	tssOrig map[string]*packettypes.MsgRecvPacket
+	tssPkt  map[string]*pkt.Pkt
+	tssSeq  uint64
 }
+
+const tssChain = "tss-chain"
 
 func TestC01(t *testing.T) {
 	r := core.NewRun(t, "C01")
@@ -49,12 +60,16 @@ func TestC01(t *testing.T) {
 
 func runHistory(r *core.Run, cid string, L int) {
 	rng := r.Rng(cid)
-	s, err := pkt.NewSim(rng, pkt.Config{Chains: 3, Users: 2, Relayers: 2, Tokens: 2, Native: true})
+	s, err := pkt.NewSim(rng, pkt.Config{Chains: 3, Users: 2, Relayers: 3, Tokens: 2, Native: true})
 	if err != nil {
 		r.Inconclusive("%s: world construction failed: %v", cid, err)
 		return
 	}
-	h := &hist{r: r, cid: cid, s: s, orig: map[*pkt.Pkt]*packettypes.MsgRecvPacket{}}
+	h := &hist{r: r, cid: cid, s: s, orig: map[*pkt.Pkt]*packettypes.MsgRecvPacket{}, tssOrig: map[string]*packettypes.MsgRecvPacket{}, tssPkt: map[string]*pkt.Pkt{}}
+	if err := h.setupTSS(); err != nil {
+		r.Inconclusive("%s: TSS counterparty setup failed: %v", cid, err)
+		return
+	}
 	for i := 0; i < L; i++ {
 		x := rng.Intn(100)
 		switch {
@@ -83,8 +98,10 @@ func runHistory(r *core.Run, cid string, L int) {
 			}
 		case x < 64:
 			s.W.Roll(s.W.Nodes[rng.Intn(len(s.W.Nodes))])
-		case x < 72:
+		case x < 70:
 			h.doubleFresh()
+		case x < 80:
+			h.tssTraffic()
 		default:
 			h.replay()
 		}
@@ -96,6 +113,99 @@ func runHistory(r *core.Run, cid string, L int) {
 	if h.nRep > 0 {
 		r.Count("histories_with_replays", 1)
 	}
+}
+
+// setupTSS gives every chain a TSS-secured counterparty whose account is a registered relayer, and a token bound to it.
+func (h *hist) setupTSS() error {
+	s := h.s
+	h.tss = s.W.Relayers[len(s.W.Relayers)-1]
+	for _, n := range s.W.Nodes {
+		cs := &tsstypes.ClientState{TssAddress: h.tss.Bech32()}
+		if err := n.App.XIBCKeeper.ClientKeeper.CreateClient(n.Ctx(), tssChain, cs, &tsstypes.ConsensusState{}); err != nil {
+			return err
+		}
+		chains, addrs := []string{tssChain}, []string{h.tss.Bech32()}
+		for _, o := range s.W.Nodes {
+			if o != n {
+				chains = append(chains, o.Name)
+				addrs = append(addrs, h.tss.Bech32())
+			}
+		}
+		n.App.XIBCKeeper.ClientKeeper.RegisterRelayers(n.Ctx(), h.tss.Bech32(), chains, addrs)
+		for _, t := range s.Tokens {
+			if t.Origin != n {
+				if err := n.App.AggregateKeeper.RegisterERC20Trace(n.Ctx(), t.Wrapped[n.Name], "0x00000000000000000000000000000000000000aa", tssChain, 0); err != nil {
+					return err
+				}
+				break
+			}
+		}
+		s.W.Roll(n)
+	}
+	return nil
+}
+
+// tssTraffic delivers a fresh packet "from" the TSS-secured chain or replays an accepted one in several forms.
+func (h *hist) tssTraffic() {
+	s := h.s
+	n := s.W.Nodes[s.Rng.Intn(len(s.W.Nodes))]
+	mk := func(seq uint64, amount int64, receiver string) []byte {
+		td := packettypes.TransferData{Receiver: receiver, Amount: big.NewInt(amount).FillBytes(make([]byte, 32)), Token: "0x00000000000000000000000000000000000000aa", OriToken: ""}
+		tdb, _ := td.ABIPack()
+		p := packettypes.Packet{SrcChain: tssChain, DstChain: n.Name, Sequence: seq, Sender: "0xtss-sender", TransferData: tdb, CallData: []byte{}, CallbackAddress: "", FeeOption: 0}
+		bz, _ := p.ABIPack()
+		return bz
+	}
+	var accepted []string
+	for k := range h.tssOrig {
+		if strings.HasPrefix(k, n.Name+"|") {
+			accepted = append(accepted, k)
+		}
+	}
+	sort.Strings(accepted)
+	if len(accepted) == 0 || s.Rng.Intn(3) == 0 {
+		h.tssSeq++
+		seq := h.tssSeq
+		bz := mk(seq, 1000+int64(s.Rng.Intn(1000)), pkt.LowerHex(s.RandUser().Eth))
+		msg := packettypes.NewMsgRecvPacket(bz, []byte("unused"), clienttypes.NewHeight(0, 1), h.tss.Acc)
+		o := s.Deliver(n, h.tss, fmt.Sprintf("tss recv #%d", seq), msg)
+		if o.OK() {
+			var p packettypes.Packet
+			_ = p.ABIDecode(bz)
+			pk := s.Register(&core.SentPacket{Bytes: bz, Packet: p, Src: tssChain, Dst: n.Name}, pkt.SendSpec{}, n)
+			pk.SrcN, pk.DstN, pk.Received, pk.RecvCount, pk.RecvBlock = nil, n, true, 1, o.Block
+			key := fmt.Sprintf("%s|%d", n.Name, seq)
+			h.tssOrig[key], h.tssPkt[key] = msg, pk
+			h.r.Count("tss_recvs_accepted", 1)
+		} else {
+			h.r.Count("tss_recvs_rejected", 1)
+		}
+		return
+	}
+	key := accepted[s.Rng.Intn(len(accepted))]
+	orig, pk := h.tssOrig[key], h.tssPkt[key]
+	m := *orig
+	variant := ""
+	switch s.Rng.Intn(5) {
+	case 0:
+		variant = "tss/identical"
+	case 1:
+		m.Packet = mk(pk.Packet.Sequence, 777, pkt.LowerHex(s.RandUser().Eth))
+		variant = "tss/altered-payload"
+	case 2:
+		m.ProofCommitment = []byte(h.tss.Bech32())
+		m.ProofHeight = clienttypes.NewHeight(uint64(s.Rng.Intn(3)), uint64(1+s.Rng.Intn(50)))
+		variant = "tss/other-proof-and-height"
+	case 3:
+		if encs := pkt.Reencodings(pk.Bytes); len(encs) > 0 {
+			m.Packet = encs[s.Rng.Intn(len(encs))]
+		}
+		variant = "tss/re-encoded"
+	case 4:
+		s.W.Roll(n)
+		variant = "tss/identical-in-later-block"
+	}
+	h.judgeReplay(pk, s.Deliver(n, h.tss, "replay "+variant+" "+pk.Key(), &m), variant)
 }
 
 func (h *hist) honestRecv() {
